@@ -547,6 +547,56 @@ def single_file_case(rec, rng):
         shutil.rmtree(base, ignore_errors=True)
 
 
+def coverage_reassigned_case(rec, rng):
+    """Template without end fields: searches, then another time_coverage is assigned to the live object
+    (twice: longer, then none) and the same periods are searched again."""
+    from typhon.files import FileSet
+    base = scratch_dir("c01v")
+    try:
+        layout = rng.choice(["{year}/{month}/{day}/{hour}{minute}{second}.dat", "{year}{month}{day}_{hour}{minute}.dat",
+                             "{year}/{doy}/f_{hour}{minute}{second}.dat"])
+        day = dt.datetime(2019, rng.randrange(1, 13), rng.randrange(1, 28))
+        starts = [day + dt.timedelta(minutes=60 * k + rng.choice([0, 7])) for k in range(rng.choice([5, 9, 26]))]
+        fs = FileSet(path=base + "/" + layout, name="cov", time_coverage=dt.timedelta(minutes=10))
+        names = {}
+        for t0 in starts:
+            p = fs.get_filename((t0, t0))
+            os.makedirs(os.path.dirname(p), exist_ok=True)
+            open(p, "w").write("x")
+            names[os.path.abspath(p)] = t0
+        case = {"kind": "coverage-reassigned", "layout": layout, "n": len(starts)}
+        rec.ev()
+        rec.count("find.time_coverage_reassigned_cases")
+        periods = [(t0 + dt.timedelta(minutes=a), t0 + dt.timedelta(minutes=b))
+                   for t0 in rng.sample(starts, min(4, len(starts))) for a, b in ((20, 40), (-5, 2), (55, 58))]
+        for cov in (dt.timedelta(minutes=10), dt.timedelta(hours=1), None, dt.timedelta(minutes=30)):
+            if cov != dt.timedelta(minutes=10) or periods is None:
+                fs.time_coverage = cov
+            length = cov or dt.timedelta(0)
+            for a, b in periods:
+                # (closed coverage [t0, t0 + length] against the half-open period [a, b); a file of zero
+                # length counts when its time lies in the period)
+                want = sorted(p for p, t0 in names.items() if t0 < b and t0 + length >= a and
+                              (length or a <= t0))
+                sure = sorted(p for p, t0 in names.items() if t0 < b and t0 + length > a)
+                try:
+                    got = sorted(os.path.abspath(str(f.path)) for f in fs.find(a, b, no_files_error=False))
+                except Exception as exc:
+                    rec.violation("find-exception", case, {"exception": repr(exc), "coverage": str(cov)})
+                    return
+                rec.count("find.time_coverage_reassigned_searches")
+                if got != want and got != sure:
+                    rec.violation("find-wrong-answer", case,
+                                  {"why": "after time_coverage was re-assigned on the live object",
+                                   "coverage": str(cov), "period": [a.isoformat(), b.isoformat()],
+                                   "got": [os.path.basename(q) for q in got],
+                                   "want": [os.path.basename(q) for q in want]})
+                    return
+        rec.nontriv(["coverage-reassigned", layout, len(starts)], [layout, len(starts)])
+    finally:
+        shutil.rmtree(base, ignore_errors=True)
+
+
 def two_placeholder_case(rec, rng):
     """Two user placeholders (satellite in a directory level, mode in the file name): filters with several
     white- and black-list entries at once, and exclusion periods that are replaced on the live object."""
@@ -662,6 +712,8 @@ def run_shard(spec, rec):
         single_file_case(rec, rng)
         if i % 10 == 0:
             two_placeholder_case(rec, rng)
+        if i % 10 == 5:
+            coverage_reassigned_case(rec, rng_for(spec["seed"], "c01-cov", spec["shard"], i))
     treewrap.uninstall()
 
 
@@ -669,6 +721,10 @@ def replay(case, rec):
     if case.get("kind") == "two-placeholders":
         for k in range(6):
             two_placeholder_case(rec, rng_for(k, "c01-two-replay"))
+        return
+    if case.get("kind") == "coverage-reassigned":
+        for k in range(6):
+            coverage_reassigned_case(rec, rng_for(k, "c01-cov-replay"))
         return
     if case.get("kind") == "single":
         return
